@@ -82,7 +82,7 @@ func newL1TwoBridges(period time.Duration) *world.L1 {
 
 func (c11Sys) Root() *c11State {
 	w := newL1TwoBridges(c11Period)
-	if err := w.HK.SetBridgeConfig(w.Ctx, 2, world.BridgeConfig("proposer", "challenger", c11PeriodOf(2))); err != nil {
+	if err := w.HK.SetBridgeConfig(w.Ctx, 1, world.BridgeConfig("proposer", "challenger", c11PeriodOf(1))); err != nil {
 		panic(err)
 	}
 	return &c11State{ctx: w.Ctx, w: w}
@@ -150,9 +150,11 @@ func c11OneEvent(evs sdk.Events, typ string, want map[string]string) *engine.Vio
 	return nil
 }
 
-// bridge 2 has the longest period there is (its outputs never become final; time.Add saturates)
+// bridge 1 has the longest period there is (its outputs never become final; time.Add saturates). It is the
+// lower id on purpose: a walk that leaves bridge 2's key range downwards meets outputs that are old enough
+// by bridge 2's measure and not final by their own
 func c11PeriodOf(b uint64) time.Duration {
-	if b == 2 {
+	if b == 1 {
 		return time.Duration(math.MaxInt64)
 	}
 	return c11Period
